@@ -1527,11 +1527,11 @@ def OP_MAKE_ADAPTER_SIG_PRIVATE(tape: Tape, stack: Stack, cache: dict) -> None:
     # r = clamp_scalar(H_small(H_big(nonce, m))) # H(nonce || m)
     r = clamp_scalar(H_small(nonce, m))
     R = derive_point_from_scalar(r) # G^r
-    c = clamp_scalar(H_small(R, X, m)) # clamp(H(R || X || m))
-    tr = nacl.bindings.crypto_core_ed25519_scalar_add(t, r)
+    RT = aggregate_points((R, T)) # R + T
+    c = clamp_scalar(H_small(RT, X, m)) # clamp(H(R + T || X || m))
     sa = nacl.bindings.crypto_core_ed25519_scalar_add(
-        tr, nacl.bindings.crypto_core_ed25519_scalar_mul(c, x)
-    ) # t + r + c*x
+        r, nacl.bindings.crypto_core_ed25519_scalar_mul(c, x)
+    ) # r + c*x
     if 4 in tape.flags and tape.flags[4]:
         cache[b'R'] = R
     if 5 in tape.flags and tape.flags[5]:
